@@ -11,7 +11,24 @@ use owlchess::types::{DrawReason, Outcome, OutcomeFilter, WinReason};
 use serde_json::{json, Value};
 
 fn gen_case(cur: &mut Cursor) -> Value {
-    gen_history_case(cur, Bias::Shuffle, 90)
+    let mut c = gen_history_case(cur, Bias::Shuffle, 90);
+    // observation schedule: when the calculated outcome is looked at is part of the history (a value remembered
+    // between two looks at the same position can only go stale if nobody looks in between)
+    c["obs"] = Value::from(cur.below(8));
+    c
+}
+
+/// Is the calculated outcome looked at after op #i? 0-3: always; 4: every 4th op; 5: every 2nd; 6: every 4th,
+/// shifted by two; 7: every 8th. The end of the history is always looked at.
+fn observed(obs: u64, i: usize, n: usize) -> bool {
+    i + 1 == n
+        || match obs {
+            4 => i % 4 == 3,
+            5 => i % 2 == 1,
+            6 => i % 4 == 1,
+            7 => i % 8 == 7,
+            _ => true,
+        }
 }
 
 /// Checks chain.calc_outcome() against the occurrence-multiset model. Returns the class name.
@@ -59,16 +76,20 @@ fn check_case(case: &Value, stats: &mut Stats) -> CheckResult {
     let mut pop_between = false;
     let mut pops_so_far = 0;
     let mut lookalike = false;
+    let obs = case["obs"].as_u64().unwrap_or(0);
+    stats.label_if(obs >= 4, "sparse_observation_schedule");
     check_calc(&sim)?;
     for (i, op) in ops.iter().enumerate() {
         sim.apply(op, stats).map_err(|f| Failure::new(format!("after op #{} {}: {}", i, op.to_json(), f.msg)))?;
-        let class = check_calc(&sim).map_err(|f| Failure::new(format!("after op #{} {}: {}", i, op.to_json(), f.msg)))?;
-        stats.label(match class {
-            "forced" => "class_forced",
-            "mandatory" => "class_mandatory",
-            "claimable" => "class_claimable",
-            _ => "class_none",
-        });
+        if observed(obs, i, ops.len()) {
+            let class = check_calc(&sim).map_err(|f| Failure::new(format!("after op #{} {}: {}", i, op.to_json(), f.msg)))?;
+            stats.label(match class {
+                "forced" => "class_forced",
+                "mandatory" => "class_mandatory",
+                "claimable" => "class_claimable",
+                _ => "class_none",
+            });
+        }
         let rep = sim.repetition_count();
         if rep >= 3 {
             seen3 = true;
@@ -86,7 +107,7 @@ fn check_case(case: &Value, stats: &mut Stats) -> CheckResult {
             lookalike = true;
         }
         // set_auto_outcome for all three filters on a clone (does not disturb the history)
-        if sim.outcome.is_none() && i % 3 == 0 {
+        if sim.outcome.is_none() && i % 3 == 0 && obs < 4 {
             for f in FILTERS {
                 let mut c = sim.chain.clone();
                 let calc = c.calc_outcome();
@@ -557,7 +578,7 @@ pub fn property() -> Property {
                 driver: Driver::Generated { gen: gen_case, genome_len: 512, quick: 360_000, thorough: 2_880_000 },
                 check: check_case,
                 configs: Configs::ReleaseOnly,
-                required: &["threefold_reached", "pop_seen", "class_mandatory", "class_claimable", "class_none", "lookalike_position"],
+                required: &["threefold_reached", "pop_seen", "class_mandatory", "class_claimable", "class_none", "lookalike_position", "sparse_observation_schedule"],
                 regressions: &[],
                 exhaustive: false,
             },
